@@ -374,6 +374,9 @@ class Gen(object):
                 self.fire_due()
             else:
                 self.emit({"op": "sweep", "now": self.t, "fault": False})
+            if r.random() < 0.5:
+                # ... and the process is restarted afterwards: what the last sweep deleted must have been committed
+                self.do_restart()
         return self.h
 
 
